@@ -47,7 +47,16 @@ def filterByName (n : String) : Option (List Char → List Char) :=
   | "x" => some xmlEscape | "h" => some htmlEscape | "u" => some urlEscape | "entity" => some entityEscape
   | "trim" => some trim | "id" => some id | _ => none
 
+/-- a list of filter names: `-` for none, else names joined by `+` -/
+def decNames (f : String) : List (List Char) :=
+  if f == "-" then [] else (f.splitOn "+").map String.toList
+
 def handle : Handler
+  | ["exprcfg", own, page, defaults, v] => do
+      let v ← decStr v
+      let c : Sites.ExprConfig := ⟨decNames own, decNames page, decNames defaults⟩
+      pure (encStr (Sites.writeExpression (Sites.sourceChecks Generated.Filters.exprFilterSources) Sites.applyFilter c
+        (⟨false, v⟩ : Sites.PyText)).text)
   | ["site", b, fi, c, fname, bufname, body] => do
       -- `<%def/%block filter=fname buffered=b cached=c>` under buffer_filters=[bufname]: first render, cache hit
       let b ← decBool b; let fi ← decBool fi; let c ← decBool c
